@@ -50,6 +50,9 @@ func GenGeom(r *gen.R, coord func(*gen.R) float64) (geom.Geom, string, bool) {
 		o.MaxVerts = 1500 // large coordinate arrays
 	}
 	g := gen.RandGeomKind(r, o, k, 0)
+	if k != gen.KPoint && k != gen.KLineString && r.Chance(0.01) {
+		g = gen.ManyMembers(r, k, coord) // 127..8192 small members
+	}
 	pt := func() geom.Point { return geom.Point{X: coord(r), Y: coord(r)} }
 	emptyLater := false
 	// force the first member to be non-empty; note empty later members
